@@ -34,22 +34,22 @@ type Slice struct {
 }
 
 type Val struct {
-	K      string  `json:"k"` // int str true false none list comp dict paren ident
-	Int    int     `json:"int,omitempty"`
-	Str    string  `json:"str,omitempty"`
-	Items  []*Expr `json:"items,omitempty"`
-	Keys   []*Expr `json:"keys,omitempty"`
+	K      string   `json:"k"` // int str true false none list comp dict paren ident
+	Int    int      `json:"int,omitempty"`
+	Str    string   `json:"str,omitempty"`
+	Items  []*Expr  `json:"items,omitempty"`
+	Keys   []*Expr  `json:"keys,omitempty"`
 	Names  []string `json:"names,omitempty"`
-	Iter   *Expr   `json:"iter,omitempty"`
-	Cond   *Expr   `json:"cond,omitempty"`
-	Name   string  `json:"name,omitempty"`
-	Call   bool    `json:"call,omitempty"`
-	Args   []Arg   `json:"args,omitempty"`
-	Slices []Slice `json:"slices,omitempty"`
-	Meth   string  `json:"meth,omitempty"`  // ident.meth(margs), applied before the slices
-	MArgs  []Arg   `json:"margs,omitempty"`
-	PMeth  string  `json:"pmeth,omitempty"` // value-level property call, applied after the slices
-	PMArgs []Arg   `json:"pmargs,omitempty"`
+	Iter   *Expr    `json:"iter,omitempty"`
+	Cond   *Expr    `json:"cond,omitempty"`
+	Name   string   `json:"name,omitempty"`
+	Call   bool     `json:"call,omitempty"`
+	Args   []Arg    `json:"args,omitempty"`
+	Slices []Slice  `json:"slices,omitempty"`
+	Meth   string   `json:"meth,omitempty"` // ident.meth(margs), applied before the slices
+	MArgs  []Arg    `json:"margs,omitempty"`
+	PMeth  string   `json:"pmeth,omitempty"` // value-level property call, applied after the slices
+	PMArgs []Arg    `json:"pmargs,omitempty"`
 
 	// Octal is set for an int literal that is to be printed as 0o<digits>; not part of the dump
 	// (the lexer reads the digits as DECIMAL: Int holds that value).
@@ -111,10 +111,10 @@ func Dict(keys []string, vals []*Expr) *Val {
 	return v
 }
 func Bin(op string, v *Val) Op { return Op{Op: op, Val: v} }
-func Un(op string) Op           { return Op{Op: op} }
-func IntE(i int) *Expr          { return E(Int(i)) }
-func StrE(s string) *Expr       { return E(Str(s)) }
-func IdE(n string) *Expr        { return E(Ident(n)) }
+func Un(op string) Op          { return Op{Op: op} }
+func IntE(i int) *Expr         { return E(Int(i)) }
+func StrE(s string) *Expr      { return E(Str(s)) }
+func IdE(n string) *Expr       { return E(Ident(n)) }
 
 // Index returns v[i] (v is copied).
 func Index(v *Val, i *Expr) *Val {
@@ -151,11 +151,11 @@ func Method(v *Val, m string, args ...*Expr) *Val {
 	return &c
 }
 
-func Assign(n string, e *Expr) *Stmt        { return &Stmt{K: "assign", Name: n, E: e} }
-func Aug(n string, e *Expr) *Stmt           { return &Stmt{K: "aug", Name: n, E: e} }
-func IdxAssign(n string, i, e *Expr) *Stmt  { return &Stmt{K: "idxassign", Name: n, Idx: i, E: e} }
-func IdxAug(n string, i, e *Expr) *Stmt     { return &Stmt{K: "idxaug", Name: n, Idx: i, E: e} }
-func Return(e *Expr) *Stmt                  { return &Stmt{K: "return", E: e} }
+func Assign(n string, e *Expr) *Stmt       { return &Stmt{K: "assign", Name: n, E: e} }
+func Aug(n string, e *Expr) *Stmt          { return &Stmt{K: "aug", Name: n, E: e} }
+func IdxAssign(n string, i, e *Expr) *Stmt { return &Stmt{K: "idxassign", Name: n, Idx: i, E: e} }
+func IdxAug(n string, i, e *Expr) *Stmt    { return &Stmt{K: "idxaug", Name: n, Idx: i, E: e} }
+func Return(e *Expr) *Stmt                 { return &Stmt{K: "return", E: e} }
 func For(names []string, it *Expr, body ...*Stmt) *Stmt {
 	return &Stmt{K: "for", Names: names, E: it, Body: body}
 }
